@@ -126,7 +126,7 @@ SUITES = {
         "thorough": [("km", ["cl_*", "dr_clone__*"])],
     },
     "C13": {
-        "quick": [("km", ["se_insert__s8_4a", "se_insert__s8_4one", "se_insert__s8_8g4", "se_remove__s8_8g0", "se_remove__s8m0_4a", "se_take__s8_4one", "se_take__s8m0_4a", "se_get__s8_8g4",
+        "quick": [("km", ["se_insert__s8_4a", "se_insert__s8_4one", "se_concrete__ka_old", "se_concrete__ka_main", "se_remove__s8_8g0", "se_remove__s8m0_4a", "se_take__s8_4one", "se_take__s8m0_4a", "se_get__s8_8g4",
                           "se_get_or_insert__u4f", "se_get_or_insert_with__s8_8g4", "se_retain__s8_8g0", "se_clear__s8_8g4", "se_clear__s8m0_4a", "se_extend1__s8_4a",
                           "se_iter__s8_8g4", "se_drain__s8_4a", "se_union__c_f", "se_union__a_e", "se_intersection__c_a", "se_intersection__a_c",
                           "se_difference__c_a", "se_difference__a_e", "se_symdiff__c_f", "se_ops__e_c", "se_preds__c_a"])],
